@@ -10,7 +10,7 @@ sys.path.insert(0, ROOT)
 import fmtlib
 
 GROUPS = {
-    "base": ["fmtcat_main", "fmtcat_c18", "fmtcat_wfmt"],
+    "base": ["fmtcat_main", "fmtcat_c18", "fmtcat_wfmt", "fmtcat_rt"],
     "syntax": ["fmtcat_main", "fmtcat_pnum", "fmtcat_grammar"],
     "total": ["fmtcat_pnum", "fmtcat_total", "fmtcat_dbg", "fmtcat_c18"],
     "sep": ["fmtcat_sep"],
